@@ -25,7 +25,7 @@ def meta(tier):
         'rule': ('seeded include trees to depth 4 and fan-out 3 over a virtual file system with nested directories; roots: URL with and '
                  'without directories, absolute path, relative path, bare file name, and no root URL function; references: same '
                  'directory, sub-directory, ../, absolute URL/path, system includes against a configured absolute / relative / URL prefix; includes wrapped in a function of the root file (global scope); adjacent includes '
-                 '(merged statement), statements before/between/after, early return inside an included file, globals and functions '
+                 '(merged statement), statements before/between/after, early return inside an included file, empty / blank / comment-only included files, globals and functions '
                  'defined by includes and used by the includer. For every tree the fault-free run and, for EVERY fetch position k, the '
                  'runs where fetch k returns nothing / raises / returns a syntactically broken text are compared with RefVM on result '
                  'or error (type, resolved location), fetch sequence, log and globals. Non-trivial: the tree performs >= 2 fetches; '
@@ -101,6 +101,9 @@ def build(rnd, loc, depth, files, counter, prefix):
     lines.append(f"systemLog('leave {me} ' + cnt)")
     key = norm_url(loc) if loc is not None else None
     files[key] = '\n'.join(lines)
+    if depth > 0 and nkids == 0 and rnd.random() < 0.15:
+        # a file that exists but has nothing in it (or only blanks / a comment): fetched, executed, the includer continues
+        files[key] = rnd.choice(['', '', '\n', '   ', '# nothing here'])
 
 
 def make_tree(rnd):
